@@ -303,27 +303,29 @@ fn triples(_t: Tier) -> BoxedStrategy<Case> {
 
 /// Small documents with *every* chunking (all subsets of the n-1 interior cut points).
 fn all_chunkings(t: Tier) -> Box<dyn Iterator<Item = Case>> {
-    let max = t.pick(15usize, 21);
+    let max = t.pick(16usize, 22);
     let docs: Vec<(&'static [u8], usize, Ending, bool)> = vec![
-        (b")\n{\"mappings\":\"\"}", 2, Ending::Lf, true),
-        (b"]x\r\n{\"sections\":[]}", 4, Ending::CrLf, true),
-        (b"}'\r{\"mappings\":\"\"}", 3, Ending::BareCrThenByte, false),
+        (b")\n{}", 2, Ending::Lf, true),
+        (b"]x\r\n{}", 4, Ending::CrLf, true),
+        (b"}'\r{}", 3, Ending::BareCrThenByte, false),
         (b"')]}\n[1]", 5, Ending::Lf, false),
         (b")]}'\r\n{}", 6, Ending::CrLf, true),
         (b")]}'\r", 5, Ending::CrAtEof, false),
         (b")]}' junk", 9, Ending::Unterminated, false),
         (b"{\"mappings\":\"A\"}", 0, Ending::NoHeader, true),
-        (b")\r\n\r\n{\"mappings\":\"A\"}", 3, Ending::CrLf, true),
+        (b")\r\n\r\n{\"names\":[]}", 3, Ending::CrLf, true),
         (b"'\n\n {\"version\":3}", 2, Ending::Lf, true),
+        (b")\n{\"mappings\":\"\"}", 2, Ending::Lf, true),
+        (b"]x\r\n{\"sections\":[]}", 4, Ending::CrLf, true),
+        (b"}'\r{\"mappings\":\"\"}", 3, Ending::BareCrThenByte, false),
+        (b")]}'\r\n{\"mappings\":\"A\"}", 6, Ending::CrLf, true),
     ];
-    Box::new(docs.into_iter().flat_map(move |(bytes, h, ending, valid)| {
-        let orig_len = bytes.len();
-        let bytes: Vec<u8> = bytes.iter().copied().take(max + 1).collect();
+    Box::new(docs.into_iter().filter(move |d| d.0.len() <= max + 1).flat_map(move |(bytes, h, ending, valid)| {
+        let bytes: Vec<u8> = bytes.to_vec();
         let n = bytes.len();
-        let full = n == orig_len;
         (0u32..(1u32 << (n - 1))).map(move |mask| {
             let cuts: Vec<usize> = (1..n).filter(|i| mask & (1 << (i - 1)) != 0).collect();
-            Case { bytes: bytes.clone(), header_len: h, cuts, max_read: 0, ending, body_valid: valid && full }
+            Case { bytes: bytes.clone(), header_len: h, cuts, max_read: 0, ending, body_valid: valid }
         })
     }))
 }
@@ -377,7 +379,7 @@ fn subs() -> Vec<Sub> {
             run: Box::new(move |ctx| {
                 run(ctx);
                 if !ctx.failed() {
-                    ctx.note_exhaustive("every chunking (all subsets of interior cut points) of 10 small documents with all header/newline kinds");
+                    ctx.note_exhaustive("every chunking (all subsets of interior cut points) of the small documents (<= 17 bytes quick, <= 23 thorough) with all header/newline kinds");
                 }
             }),
             ..ex
